@@ -36,6 +36,8 @@ fn singles(rules: &[RuleGroup]) -> Vec<(Result<String, String>, u8)> {
     }).collect()
 }
 
+fn okw_all(single: &[(Result<String, String>, u8)]) -> Vec<usize> { (0..single.len()).filter(|i| single[*i].1 == 0).collect() }
+
 fn check_rules(rule_texts: &[&str], a: &mut Acc) {
     let rules = g(rule_texts);
     let single = singles(&rules);
@@ -88,6 +90,22 @@ fn check_rules(rule_texts: &[&str], a: &mut Acc) {
             }
         }
     } }
+    // lines with an empty word (leading space, two spaces in a row): the empty word keeps its slot
+    if let Out::Ok(Ok(ev)) = run(&rules, &[String::new()]) { if ev.len() == 1 {
+        let e = ev[0].clone();
+        for &i in &okw_all(&single) { for &j in &okw_all(&single) {
+            let (si, sj) = (single[i].0.clone().unwrap(), single[j].0.clone().unwrap());
+            for (line, want) in [(format!(" {}", WORD_POOL[i]), format!("{} {}", e, si)), (format!("{}  {}", WORD_POOL[i], WORD_POOL[j]), format!("{} {} {}", si, e, sj)), (format!("  {} {}", WORD_POOL[i], WORD_POOL[j]), format!("{} {} {} {}", e, e, si, sj))] {
+                if j != i && line.starts_with(' ') && !line.starts_with("  ") { continue; } // the leading-space line does not depend on j
+                a.evals += 1;
+                match run(&rules, &[line.clone()]) {
+                    Out::Ok(Ok(v)) if v.len() == 1 && v[0] == want => { a.ok += 1; }
+                    Out::Ok(x) => a.viols.push(Viol { key: format!("line|{}|{}", rule_texts.join(" ;; "), line), desc: format!("run([{}], [`{}`]) = {:?}, expected [`{}`] (an empty word keeps its slot)", rule_texts.join(" ;; "), line, x, want), case: json!({"kind": "line", "rules": rule_texts, "line": line, "want": want}) }),
+                    _ => {}
+                }
+            }
+        } }
+    } }
     // lines of two and three space-separated words
     let okw: Vec<usize> = (0..n).filter(|i| single[*i].1 == 0).collect();
     for &i in &okw { for &j in &okw {
@@ -108,7 +126,7 @@ fn check_rules(rule_texts: &[&str], a: &mut Acc) {
 pub fn run_check() -> i32 {
     let mut r = Report::new("C11");
     let thorough = r.thorough();
-    r.rule = "rule lists = every single rule (thorough: every ordered pair) of a 43-rule pool (alphas, variables, insertion, deletion, metathesis, tone, two that raise runtime errors); word lists = every ordered list of 1..3 words of a 13-word pool (incl. a word ending in a partial match of a two-element input and a word starting with a full match) (two fail at parse, two are the same word in americanist and in plain IPA spelling, some fail at apply depending on the rule), which contains all their permutations and sublists; lines `u v` and `u v w` for all pool pairs/triples of succeeding words; lines `u v` for all pool pairs in which a word fails (alone and after a good line). Oracle: len(out) == len(in), out[i] == run(R,[W[i]])[0], a line is the single-word results joined by one space, a failing list fails with the error of its first failing word (within one phase). Non-trivial = list of >= 2 words.".into();
+    r.rule = "rule lists = every single rule (thorough: every ordered pair) of a 43-rule pool (alphas, variables, insertion, deletion, metathesis, tone, two that raise runtime errors); word lists = every ordered list of 1..3 words of a 13-word pool (incl. a word ending in a partial match of a two-element input and a word starting with a full match) (two fail at parse, two are the same word in americanist and in plain IPA spelling, some fail at apply depending on the rule), which contains all their permutations and sublists; lines `u v` and `u v w` for all pool pairs/triples of succeeding words; lines `u v` for all pool pairs in which a word fails (alone and after a good line); lines with an empty word (` u`, `u  v`, `  u v`). Oracle: len(out) == len(in), out[i] == run(R,[W[i]])[0], a line is the single-word results joined by one space, a failing list fails with the error of its first failing word (within one phase). Non-trivial = list of >= 2 words.".into();
     r.assumptions.push("lists mixing parse-phase and apply-phase failures only have to fail (run parses all words before applying any rule; the statement does not rank the phases)".into());
     let mut jobs: Vec<Vec<&str>> = RULE_POOL.iter().map(|x| vec![*x]).collect();
     if thorough { for a in RULE_POOL { for b in RULE_POOL { jobs.push(vec![a, b]); } } }
